@@ -88,6 +88,8 @@ def run_harness(ctx, name, extra_args=(), timeout=900):
     args = [hb, "-seed", str(ctx.seed), "-tier", ctx.tier, "-out", ctx.work] + list(extra_args)
     if ctx.replay:
         rp = json.load(open(ctx.replay))
+        # a replay names a generated case: regenerate with the seed and tier that produced it
+        args[2], args[4] = str(rp.get("seed", ctx.seed)), str(rp.get("tier", ctx.tier))
         inner = os.path.join(ctx.work, "replay_in.json")
         json.dump(rp.get("replay", rp), open(inner, "w"))
         args += ["-replay", inner]
